@@ -273,6 +273,14 @@ func c16run(c *fw.Ctx, idx int) {
 		}
 		return true
 	}
+	// templates handed out earlier and held on to by the caller: executing them again later resolves their includes
+	// at that time (development mode: from the loader as it is then)
+	type heldT struct {
+		t    *jet.Template
+		snap *c16snap
+		what string
+	}
+	var held []heldT
 	n := 10 + r.Intn(50)
 	hits, misses, failures := 0, 0, 0
 	for step := 0; step < n; step++ {
@@ -318,6 +326,7 @@ func c16run(c *fw.Ctx, idx int) {
 					return
 				}
 			}
+			held = append(held, heldT{t, want, "GetTemplate(" + name + ")"})
 			if r.Intn(2) == 0 {
 				ld.Log.Reset()
 				ch.Log.Reset()
@@ -367,6 +376,9 @@ func c16run(c *fw.Ctx, idx int) {
 				fail("model-bug", "model remembered something during Parse")
 				return
 			}
+			if ok {
+				held = append(held, heldT{t, snap, "Parse"})
+			}
 			// nothing newly remembered: a fresh lookup of a not-yet-remembered name must consult the loader
 			if ok && r.Intn(2) == 0 {
 				ld.Log.Reset()
@@ -385,6 +397,23 @@ func c16run(c *fw.Ctx, idx int) {
 				if !syncActual() {
 					return
 				}
+			}
+		case k == 15 && len(held) > 0: // execute a template obtained earlier once more
+			h := held[r.Intn(len(held))]
+			hist = append(hist, c16op{Op: "ExecuteHeld", Arg: h.what})
+			wantOut, wantOK := m.render(h.snap)
+			res := jx.Exec(h.t, nil, nil)
+			c.Eval(1)
+			c.Count("held_templates_executed_again", 1)
+			if res.Panic != nil || wantOK != (res.Err == nil) || res.Out != wantOut {
+				fail("rendered-version-held", fmt.Sprintf("Execute of the template obtained earlier by %s: want %q ok=%v, got %s", h.what, wantOut, wantOK, res))
+				return
+			}
+			if !checkOp("Execute(held "+h.what+")", true) {
+				return
+			}
+			if !syncActual() {
+				return
 			}
 		case k < 16:
 			setFile(r.Intn(len(c16bases)), exts[r.Intn(len(exts))])
@@ -461,7 +490,7 @@ func init() {
 	fw.Register(&fw.Property{
 		ID:        "C16",
 		Technique: "sequential history checking: recorded Loader/Cache call traces, returned template identities and rendered version tokens compared with an executable model of the cache statement",
-		Rule: "each case is one random history (10-60 operations) on one Set: GetTemplate (+Execute), Set.Parse of a template extending/importing/including the others (+Execute), file edits with fresh version tokens, deletions, injected faults (Exists true but Open fails, reader failing after n bytes, unparsable content, broken parent) " +
+		Rule: "each case is one random history (10-60 operations) on one Set: GetTemplate (+Execute), executing a template obtained earlier once more, Set.Parse of a template extending/importing/including the others (+Execute), file edits with fresh version tokens, deletions, injected faults (Exists true but Open fails, reader failing after n bytes, unparsable content, broken parent) " +
 			"over 4 base names x 5 extension lists x {development mode, normal} x {default cache, recording custom cache}; files extend/import/include only higher-numbered bases (acyclic); " +
 			"oracle per operation: outcome, exact Loader.Exists/Open trace (hit = none, miss = extension probes in order up to the first existing file), pointer identity on hits, Cache.Put list (never in development mode or during Parse), rendered versions; " +
 			"non-trivial = history contains a failed lookup and (a cache hit or development mode); distinct by configuration and hit/miss/failure counts; case 0 is the directed witness of known finding K2",
